@@ -27,7 +27,15 @@ type U256 struct {
 	Inf bool
 }
 
-var rWords = func() [4]uint64 { var w [4]uint64; b := fr.Modulus(); ws := b.Bits(); for i := range ws { w[i] = uint64(ws[i]) }; return w }()
+var rWords = func() [4]uint64 {
+	var w [4]uint64
+	b := fr.Modulus()
+	ws := b.Bits()
+	for i := range ws {
+		w[i] = uint64(ws[i])
+	}
+	return w
+}()
 
 func u64(x uint64) U256 { return U256{W: [4]uint64{x, 0, 0, 0}} }
 
@@ -184,7 +192,7 @@ type Shadow struct {
 
 // LeafKey encodings
 func hintLeafKey(seq uint64, idx int) int64 { return int64(seq)<<10 | int64(idx) | 1<<62 }
-func InputLeafKey(i int) int64               { return int64(i) }
+func InputLeafKey(i int) int64              { return int64(i) }
 
 // ShadowCfg carries the bound table between passes.
 type ShadowCfg struct {
@@ -210,11 +218,11 @@ type Finding struct {
 }
 
 type ShadowReport struct {
-	Sites     map[string]*SiteStat
-	EqSites   map[string]uint64 // integer-equality sites judged -> count
-	Findings  map[string]*Finding
-	FindCount map[string]uint64
-	Changed   int // number of leaf bounds newly learned in this pass
+	Sites      map[string]*SiteStat
+	EqSites    map[string]uint64 // integer-equality sites judged -> count
+	Findings   map[string]*Finding
+	FindCount  map[string]uint64
+	Changed    int // number of leaf bounds newly learned in this pass
 	CanonMarks int // values seen entering the chip's canonical range check (0 = the monitor is blind to it)
 }
 
